@@ -438,6 +438,8 @@ func ruleTL3(c *Ctx) *rule {
 			}
 			if guarded {
 				r.ok(key, c.ipos(st), "line+1 under the necessary guard 'the decoded rune is \\n'")
+			} else if why := c.unpairedStepBack(ro, f, st); mixed && why != "" {
+				r.bad(key, c.ipos(st), why)
 			} else if mixed {
 				r.undecided(key, c.ipos(st), "the line counter is incremented when a rune equals '\\n', but that rune is not always the one decoded from the input (a substituted newline, e.g. for \\r\\n): whether increments and decrements still pair up is a value-level question")
 			} else {
@@ -551,6 +553,82 @@ func ruleTL4(c *Ctx) *rule {
 		}
 	}
 	return r
+}
+
+// unpairedStepBack: the increment at st is also taken for a substituted newline (a phi edge that is the constant '\n' instead of
+// the decoded rune) whose width is set, on the same edge, to a constant k - while every decrement of the line counter is
+// guarded by "width == c" with c != k. Consuming such a rune and stepping back over it (peek) then leaves the counter one too
+// high. Returns the description of the mismatch, or "".
+func (c *Ctx) unpairedStepBack(ro *lexRoles, f *ssa.Function, st *ssa.Store) string {
+	var runePhi *ssa.Phi
+	for _, g := range c.info(f).necessaryGuards(st.Block()) {
+		if !isNewlineTest(g, false) {
+			continue
+		}
+		bin := g.cond.(*ssa.BinOp)
+		for _, side := range []ssa.Value{bin.X, bin.Y} {
+			if phi, ok := side.(*ssa.Phi); ok {
+				runePhi = phi
+			}
+		}
+	}
+	if runePhi == nil {
+		return ""
+	}
+	// the width stored on the substituted edge
+	wCell, wConst := "", int64(-1)
+	for i, e := range runePhi.Edges {
+		k, isC := constInt(e)
+		if !isC || k != '\n' {
+			continue
+		}
+		for _, b := range f.Blocks {
+			for _, in := range b.Instrs {
+				ws, ok := in.(*ssa.Store)
+				if !ok || lexPath(ws.Addr) == "" {
+					continue
+				}
+				wphi, isPhi := ws.Val.(*ssa.Phi)
+				if !isPhi || wphi.Block() != runePhi.Block() || i >= len(wphi.Edges) {
+					continue
+				}
+				if wk, isK := constInt(wphi.Edges[i]); isK {
+					wCell, wConst = lexPath(ws.Addr), wk
+				}
+			}
+		}
+	}
+	if wCell == "" {
+		return ""
+	}
+	// every decrement requires another width
+	decs, mismatched := 0, 0
+	want := int64(0)
+	for _, a := range c.lexAssigns(ro.line) {
+		bin, ok := a.val.(*ssa.BinOp)
+		if a.val == nil || !ok || bin.Op != token.SUB || lexLoadPath(bin.X) != ro.line {
+			continue
+		}
+		decs++
+		for _, g := range c.info(a.st.Parent()).necessaryGuards(a.st.Block()) {
+			gb, isBin := g.cond.(*ssa.BinOp)
+			if !isBin || !((gb.Op == token.EQL && g.pol) || (gb.Op == token.NEQ && !g.pol)) {
+				continue
+			}
+			if lexLoadPath(gb.X) != wCell {
+				continue
+			}
+			if k, isK := constInt(gb.Y); isK && k != wConst {
+				mismatched++
+				want = k
+				break
+			}
+		}
+	}
+	if decs > 0 && decs == mismatched {
+		return fmt.Sprintf("the line counter is also incremented for a substituted newline that is consumed with %s = %d, but it is only ever decremented when %s == %d: reading such a rune and stepping back over it (peek) leaves the line one too high", wCell, wConst, wCell, want)
+	}
+	return ""
 }
 
 // isNewlineTest: the guard says that a rune obtained from utf8.DecodeRuneInString equals '\n' (strict: on every origin of the rune;
